@@ -420,7 +420,9 @@ type layer struct {
 	prefetchSize   int64
 	prefetchSizeMu sync.Mutex
 
-	r reader.Reader
+	r                 reader.Reader
+	verifiedTOCDigest digest.Digest // empty if this layer hasn't been verified (yet)
+	verifyMu          sync.Mutex
 
 	closed   bool
 	closedMu sync.Mutex
@@ -471,14 +473,30 @@ func (l *layer) Verify(tocDigest digest.Digest) (err error) {
 	if l.isClosed() {
 		return fmt.Errorf("layer is already closed")
 	}
-	if l.r != nil {
+	l.verifyMu.Lock()
+	defer l.verifyMu.Unlock()
+	if l.r != nil && l.verifiedTOCDigest != "" {
+		// Already verified. This layer object is shared through the cache so the
+		// digest must still be the one it was verified with.
+		if tocDigest != l.verifiedTOCDigest {
+			return fmt.Errorf("invalid TOC JSON %q; want %q", l.verifiedTOCDigest, tocDigest)
+		}
 		return nil
 	}
-	l.r, err = l.verifiableReader.VerifyTOC(tocDigest)
-	return
+	// Not verified yet (possibly used without verification before): verify it now.
+	// Both SkipVerify and VerifyTOC return the same reader so users of this layer that
+	// skipped the verification get verified contents from now on, too.
+	r, err := l.verifiableReader.VerifyTOC(tocDigest)
+	if err != nil {
+		return err
+	}
+	l.r, l.verifiedTOCDigest = r, tocDigest
+	return nil
 }
 
 func (l *layer) SkipVerify() {
+	l.verifyMu.Lock()
+	defer l.verifyMu.Unlock()
 	if l.r != nil {
 		return
 	}
